@@ -32,6 +32,8 @@ class Explorer:
         self._in_path = False
         self._in_light = False
         self._s2 = None
+        self._scope_path = None
+        self._decided, self._keep = {}, []
 
     # ---- solver plumbing
     def reset(self, base):
@@ -112,6 +114,13 @@ class Explorer:
         if z3.is_false(cond):
             self.stats['syntactic'] += 1
             return False
+        # a condition already decided on this path (same term) needs no new decision
+        cid = cond.get_id()
+        known = self._decided.get(cid)
+        if known is not None:
+            self.stats['syntactic'] += 1
+            return known
+        nid = z3.simplify(z3.Not(cond)).get_id()
         i = len(self.decisions)
         if i < len(self.prefix):
             d = self.prefix[i]
@@ -131,6 +140,9 @@ class Explorer:
                 raise Abort()
         self.decisions.append(d)
         c = cond if d else z3.Not(cond)
+        self._decided[cid] = d
+        self._decided[nid] = not d
+        self._keep.append(cond)
         self.pc.append(c)
         self.solver.add(c)
         return d
@@ -187,6 +199,7 @@ class Explorer:
                 raise PathCap('more than %d paths' % self.max_paths)
             self.prefix = self.worklist.pop()
             self.decisions, self.pc, self.model = [], [], None
+            self._decided, self._keep = {}, []
             self.solver.push()
             for d in self.defs_light:
                 self.solver.add(d)
@@ -233,9 +246,10 @@ class Explorer:
         s2 = self._scratch()
         r, m = None, None
         try:
+            scoped = self._scope_path is path
             s2.push()
             try:
-                for c in self.base + self.defs_light + list(path.pc) + list(extra):
+                for c in (list(extra) if scoped else self.base + self.defs_light + list(path.pc) + list(extra)):
                     s2.add(c)
                 r = s2.check()
                 m = s2.model() if r == z3.sat else None
@@ -255,6 +269,19 @@ class Explorer:
             self.stats['solver_s'] += time.time() - t
             self.stats['solver_queries'] += 1
         return str(r), m
+
+    def begin_verdicts(self, path):
+        """assert base + path condition once; the verdict queries of this path are then incremental"""
+        s2 = self._scratch()
+        s2.push()
+        for c in self.base + self.defs_light + list(path.pc):
+            s2.add(c)
+        self._scope_path = path
+
+    def end_verdicts(self):
+        if self._scope_path is not None:
+            self._scope_path = None
+            self._scratch().pop()
 
     def _scratch(self):
         if getattr(self, '_s2', None) is None:
